@@ -410,6 +410,7 @@ fn laws_engine() -> Tera {
         ("startend", "{{ v is starting_with(pat=a) }}|{{ v is ending_with(pat=a) }}|{{ v is containing(pat=a) }}"),
         ("plural", "{{ v | pluralize }}|{{ v | pluralize(singular=\"y\", plural=\"ies\") }}"),
         ("divby", "{{ v is divisible_by(divisor=d) }}"),
+        ("revb", "{{ b | reverse == rb }}|{{ b | reverse | reverse == b }}|{{ b | reverse | length == b | length }}|{{ b | reverse }}"),
     ] {
         tp.push((n.to_string(), s.to_string()));
     }
@@ -457,6 +458,21 @@ fn law_case(cx: &mut Cx, t: &Tera, rng: &mut Rng) {
         }
     }
     cx.count("string_law_cases", 1);
+    // reverse "reverses the content" of arrays, strings and bytes: reversed bytes are those bytes in the opposite order
+    {
+        let bytes: Vec<u8> = (0..rng.below(9)).map(|_| if rng.bool() { b'a' + rng.below(26) as u8 } else { rng.below(256) as u8 }).collect();
+        let rb: Vec<u8> = bytes.iter().rev().copied().collect();
+        let mut cb = Context::new();
+        cb.insert_value("b", Value::bytes(bytes.clone()));
+        cb.insert_value("rb", Value::bytes(rb.clone()));
+        let exp = format!("true|true|true|{}", String::from_utf8_lossy(&rb));
+        cx.cell(format!("laws|reverse-bytes|{}", bytes.len().min(3)));
+        match rend!("revb", &cb) {
+            Ok(o) if o == exp => {}
+            Ok(o) => fail!("reverse-bytes", json!({"bytes": bytes}), "bytes {bytes:?}: reverse==reversed|reverse|reverse==id|same length|printed gave {o:?}, expected {exp:?}"),
+            Err(e) => fail!("reverse-bytes", json!({"bytes": bytes}), "reverse of bytes {bytes:?} failed: {e}"),
+        }
+    }
     cx.cell(format!("laws|str|{}|{}", if v.is_ascii() { "ascii" } else { "unicode" }, v.chars().count().min(12)));
     // 1:1 case maps only (ASCII + a few Latin/Cyrillic letters); exotic characters are exercised for totality only
     let simple = |c: char| c.is_ascii() || "éÉжЖ".contains(c);
@@ -773,7 +789,8 @@ fn law_case(cx: &mut Cx, t: &Tera, rng: &mut Rng) {
                         if o != exp.to_string() {
                             fail!("divisible_by", nrp.clone(), "{i} is divisible_by(divisor={d}) -> {o}, exact arithmetic says {exp}");
                         }
-                    } else if o != "true" && o != "false" {
+                    } else if !(o == "false" || (o == "true" && i == 0)) {
+                        // no multiple of zero is anything but zero (whether zero itself counts is left open)
                         fail!("divisible_by", nrp.clone(), "{i} is divisible_by(divisor=0) -> {o}");
                     }
                 }
